@@ -19,6 +19,7 @@ import (
 	"bytes"
 	"errors"
 	"fmt"
+	"github.com/KevoDB/kevo/pkg/compaction"
 	"hash/crc32"
 	"os"
 	"path/filepath"
@@ -57,6 +58,7 @@ type cxGen struct {
 	nkeys   int
 	vseq    int
 	partial bool // crange over partial key ranges (can trigger KF-C12-RANGE)
+	clock   bool // the tombstone tracker's clock moves between operations (`advance`)
 }
 
 func (c *cxGen) key() []byte { return cxKeys[c.g.intn(c.nkeys)] }
@@ -183,6 +185,7 @@ func genCompaction(g *gen, n int, tier string, w *bufio.Writer) {
 			kind = 4
 		}
 		c.partial = kind == 4
+		c.clock = g.chance(1, 4)
 		mem := g.pick(48, 64, 64, 96, 128, 200)
 		max := 2 + g.intn(3)
 		cut := g.pick(2, 3, 5, 1000000, 1000000, 1000000)
@@ -231,6 +234,11 @@ func genCompaction(g *gen, n int, tier string, w *bufio.Writer) {
 				case x < 90:
 					c.emit("scan", c.bound(), c.bound())
 				default:
+					if c.clock && g.chance(1, 2) {
+						// the tracker's clock: around the 24 h retention of a recorded delete (a minute of margin for the real time
+						// that passes between the operations), half of it, a little
+						c.emit("advance", strconv.Itoa(g.pick(86400, 86400-60, 43200, 43200-60, 600, 86400+60)))
+					}
 					c.compactBlock()
 				}
 			}
@@ -675,6 +683,26 @@ func (x *cxRun) step(ws []string) (out string) {
 			return "bad-op"
 		}
 		return x.compact(ws)
+	case "advance": // advance <seconds>: the tombstone tracker's clock moves on (every recorded deletion time is moved back)
+		sec, _ := strconv.Atoi(ws[1])
+		cm, ok := x.e.VerifCompactionManager().(interface {
+			VerifCoordinator() compaction.CompactionCoordinator
+		})
+		if !ok {
+			return "err no-coordinator-access"
+		}
+		co, ok := cm.VerifCoordinator().(interface {
+			VerifTombstoneManager() compaction.TombstoneManager
+		})
+		if !ok {
+			return "err no-tracker-access"
+		}
+		tr, ok := co.VerifTombstoneManager().(*compaction.TombstoneTracker)
+		if !ok {
+			return "err not-a-tracker"
+		}
+		tr.VerifShift(time.Duration(sec) * time.Second)
+		return "ok"
 	case "retire":
 		return x.retire(len(ws) > 1 && ws[1] == "all")
 	case "sstdump":
